@@ -253,6 +253,9 @@ fn consume(src: &Vec<char>, start: usize, line: u32, src_file_path: String) -> R
         },
         '"' => {
             let (val, consumed) = consume_string(src, start);
+            if start + consumed > src.len() {
+                return Err(SyntaxError(line, src_file_path, "String wasn't closed".to_string()));
+            }
 
             consumed_char = consumed;
             consumed_line = 0;
